@@ -24,7 +24,7 @@ class Prepared:
                 d.close()
 
 
-def prepare_one(pkg, index, want_cpp=True, want_py=True, flags=("-O0",), with_ndjson=True, cpp_opts=None):
+def prepare_one(pkg, index, want_cpp=True, want_py=True, flags=("-O0",), with_ndjson=True, cpp_opts=None, manual=False):
     pr = Prepared(pkg, index)
     pr.root = os.path.join(build.scratch(), "pk", pkg.dirname)
     targets = tuple(t for t, w in (("cpp", want_cpp), ("python", want_py)) if w)
@@ -37,7 +37,7 @@ def prepare_one(pkg, index, want_cpp=True, want_py=True, flags=("-O0",), with_nd
         pr.steps[p.name] = [(sn, am.resolve(pkg, st)) for sn, st in p.steps]
     if want_cpp:
         pr.schemas = cppdrv.schemas_from_cpp(pr.cppdir)
-        exe, errors = cppdrv.build_driver(pkg, pr.cppdir, flags=flags, with_ndjson=with_ndjson)
+        exe, errors = cppdrv.build_driver(pkg, pr.cppdir, flags=flags, with_ndjson=with_ndjson, manual=manual)
         pr.cpp_errors = errors
         if exe:
             pr.cpp = cppdrv.Driver(exe)
